@@ -180,6 +180,10 @@ func Value(r *mon.Rand, depth int) any {
 				m[TextValue(r)] = Value(r, depth+1)
 			}
 		}
+		if r.Intn(6) == 0 {
+			// a nested map keyed by byte strings (only labels of the header itself must be int / tstr)
+			m[cbor.ByteString(r.Bytes(1+r.Intn(4)))] = Value(r, depth+1)
+		}
 		return m
 	}
 }
